@@ -55,8 +55,10 @@ def build(layout: str, members: list[dict], *, dict_size: int | None = None, sub
 
 
 def _zip(members, method) -> bytes:
+    import warnings
     bio = io.BytesIO()
-    with zipfile.ZipFile(bio, "w", method) as z:
+    with warnings.catch_warnings(), zipfile.ZipFile(bio, "w", method) as z:
+        warnings.simplefilter("ignore", UserWarning)       # repeated member names are an input class (zipfile warns "Duplicate name")
         for m in members:
             t = m.get("type", "file")
             name = m["name"]
